@@ -52,7 +52,7 @@ Print Assumptions C14_current_sound.
 (* The same with the x-arc-database header on the regexp path (the converter now excludes exactly the CTE names
    the permission check excludes: no hypothesis about them is left). *)
 Theorem C14_current_sound_header : forall s hdr chk rt text,
-  req_in_grammar s = true -> hdr <> [] -> fast_single_ok true true s = false ->
+  req_in_grammar s = true -> hdr <> [] -> fast_single_gen true true true s = false ->
   gate_gen fx_all s hdr = OExec chk rt text ->
   rt = Transformed
   /\ text = restore s (toks (subst_segs (req_names s) (req_ctes fx_all s) hdr false (req_segs s)))
@@ -113,7 +113,7 @@ Print Assumptions C14_transform_path_sound.
 (* 2. Transform path with the x-arc-database header (the regexp path of convertSQLToStoragePathsWithHeaderDB):
    the same, for requests on which the converter looks for CTE names whenever the permission check does. *)
 Theorem C14_transform_path_sound_header : forall fx s hdr chk rt text,
-  req_in_grammar s = true -> hdr <> [] -> fast_single_ok (fx_single fx) (fx_with fx) s = false ->
+  req_in_grammar s = true -> hdr <> [] -> fast_single_gen (fx_single fx) (fx_with fx) (fx_fastname fx) s = false ->
   req_hdr_ctes fx s = req_ctes fx s ->
   gate_gen fx s hdr = OExec chk rt text -> rt = Transformed ->
   text = restore s (toks (subst_segs (req_names s) (req_hdr_ctes fx s) hdr false (req_segs s)))
@@ -233,7 +233,7 @@ Theorem C14_header_window_clause_refuted :
   req_in_grammar s = true /\ pathlike_free s = true
   /\ accepted_unchecked s (bs "db2") Transformed
        (bs "SELECT * FROM read_parquet('/R/db2/secret/**/*.parquet', union_by_name=true) WINDOW w1 AS (ORDER BY id), secret AS (ORDER BY id)")
-  /\ gate_gen {| fx_with := true; fx_dedup := false; fx_scanner := false; fx_denylist := false; fx_noraw := false; fx_bsq := false; fx_single := false; fx_cteq := false; fx_quotes := false |} s (bs "db2")
+  /\ gate_gen {| fx_with := true; fx_dedup := false; fx_scanner := false; fx_denylist := false; fx_noraw := false; fx_bsq := false; fx_single := false; fx_cteq := false; fx_quotes := false; fx_fastname := false; fx_reserved := false |} s (bs "db2")
      = OExec [] Transformed s.
 Proof. vm_compute. repeat split. Qed.
 
@@ -261,7 +261,7 @@ Proof. vm_compute. repeat split. eexists. repeat split. Qed.
    but fx_quotes): a backtick inside a double-quoted alias is mapped to a double quote for the validator only ... *)
 Definition fx_before_quotes : fixset :=
   {| fx_with := true; fx_dedup := true; fx_scanner := true; fx_denylist := true; fx_noraw := true; fx_bsq := true;
-     fx_single := true; fx_cteq := true; fx_quotes := false |}.
+     fx_single := true; fx_cteq := true; fx_quotes := false; fx_fastname := false; fx_reserved := false |}.
 Theorem C14_backtick_in_quoted_alias_refuted :
   let s := bs ("SELECT 1 AS ""a`b"", p.v FROM db1.cpu c, """ ++ canary ++ """ p") in
   gate_gen fx_before_quotes s [] = OExec [(bs "db1", bs "cpu")] Transformed
@@ -273,6 +273,42 @@ Theorem C14_estring_escaped_quote_refuted :
   let s := bs ("SELECT E'a\'' AS a, p.v FROM """ ++ canary ++ """ p WHERE 'x' = 'x'") in
   gate_gen fx_before_quotes s [] = OExec [] Transformed s /\ harmless (gate_gen fx_all s []) = true.
 Proof. vm_compute. split; reflexivity. Qed.
+
+(* (l) what was still open at /repo 06c1190 (every repair up to fx_quotes): *)
+Definition fx_before_reserved : fixset :=
+  {| fx_with := true; fx_dedup := true; fx_scanner := true; fx_denylist := true; fx_noraw := true; fx_bsq := true;
+     fx_single := true; fx_cteq := true; fx_quotes := true; fx_fastname := false; fx_reserved := false |}.
+(* the header fast path takes a digit-leading name the permission check cannot see: nothing is checked and
+   <header database>/2024x is read; with the repair the statement is left to the general path, which does not rewrite
+   the name either (DuckDB then refuses the text: an unquoted name cannot start with a digit) *)
+Theorem C14_fast_path_digit_name_refuted :
+  let s := bs "SELECT * FROM 2024x" in
+  fast_single_gen true true false s = true /\ fast_single_gen true true true s = false
+  /\ gate_gen fx_before_reserved s (bs "db2") = OExec [] Transformed (bs "SELECT * FROM read_parquet('/R/db2/2024x/**/*.parquet', union_by_name=true)")
+  /\ gate_gen fx_all s (bs "db2") = OExec [] Transformed s.
+Proof. vm_compute. repeat split. Qed.
+(* request text of placeholder shape is rewritten by the unmasking, after every check: a literal spliced into an
+   earlier literal whose quotes then close early ... *)
+Theorem C14_placeholder_in_literal_refuted :
+  let s := bs ("SELECT '__STR_1__' AS a, ' , p.tag FROM """ ++ canary ++ """ p -- ' AS b") in
+  req_in_grammar s = true
+  /\ gate_gen fx_before_reserved s [] = OExec [] Transformed (bs ("SELECT '' , p.tag FROM """ ++ canary ++ """ p -- '' AS a, __STR_1__ AS b"))
+  /\ gate_gen fx_all s [] = OReject RjReserved.
+Proof. vm_compute. repeat split. Qed.
+(* ... a word that becomes a FROM keyword ... *)
+Theorem C14_from_mask_word_refuted :
+  let s := bs ("SELECT p.tag, extract(year FROM DATE '2020-01-01') AS y __FROM_MASK_0__ """ ++ canary ++ """ p") in
+  req_in_grammar s = true
+  /\ gate_gen fx_before_reserved s [] = OExec [] Transformed (bs ("SELECT p.tag, extract(year FROM DATE '2020-01-01') AS y FROM """ ++ canary ++ """ p"))
+  /\ gate_gen fx_all s [] = OReject RjReserved.
+Proof. vm_compute. repeat split. Qed.
+(* ... and a literal spliced into the emitted path through a quoted measurement name *)
+Theorem C14_placeholder_identifier_path_refuted :
+  let s := bs "SELECT t.tag FROM db1.""__STR_1__"" t WHERE t.tag <> ' || $$../db2/secret$$ || '" in
+  gate_gen fx_before_reserved s [] = OExec [(bs "db1", bs "__STR_1__")] Transformed
+    (bs "SELECT t.tag FROM read_parquet('/R/db1/' || $$../db2/secret$$ || '/**/*.parquet', union_by_name=true) t WHERE t.tag <> __STR_1__")
+  /\ gate_gen fx_all s [] = OReject RjReserved.
+Proof. vm_compute. repeat split. Qed.
 
 (* the current backticksToDoubleQuotes as transcribed by the shared lexical model and the independent reading of the
    same loop in this area give the same bytes on these statements, and both differ from the old unconditional
